@@ -151,6 +151,11 @@ fn hoist_arc_clone(a: &Arc<[u8]>) -> (r: Arc<[u8]>) ensures r == *a { a.clone() 
 // R7: `filters.clone()` on a Vec<StreamFilter> (derive(Clone) on the enum and on the parameter structs: structural copy)
 #[verifier::external_body]
 fn hoist_filters_clone(v: &Vec<StreamFilter>) -> (r: Vec<StreamFilter>) ensures r@ == v@ { unimplemented!() /* v.clone() */ }
+// R7: `v.extend(opt)` at type `Vec<T>::extend::<Option<T>>` (IntoIterator for Option: yields the value once, or nothing)
+#[verifier::external_body]
+fn hoist_vec_extend_opt<T>(v: &mut Vec<T>, o: Option<T>)
+    ensures final(v)@ == (match o { Some(x) => old(v)@.push(x), None => old(v)@ })
+{ v.extend(o) }
 // R7: `res.map(Primitive::Stream)` (constructor as function item)
 #[verifier::external_body]
 fn hoist_map_stream(x: Result<PdfStream>) -> (r: Result<Primitive>)
